@@ -767,7 +767,7 @@ func TestVfC08(t *testing.T) {
 		return
 	}
 	r := vfkit.New("C08")
-	defer r.Flush(true)
+	defer r.Finish()
 	e := vfBoot(vfConfig{Push: true})
 	vfInstallRecorder(e)
 	if r.Batch() == 0 {
